@@ -2,7 +2,7 @@
 import numpy as np
 
 from sim.core import Violation, Inconclusive, RandomProxy, patched_random
-from sim.models import gen_mdp_spec, MDPView, make_mdp
+from sim.models import gen_mdp_spec, MDPView, make_mdp, sibling_mdp_spec
 from sim.refsolve import optimal_values, evaluate, game_W
 from sim.heur import gen_heuristic, build_heuristic, is_monotone
 from sim.ctx import RunCtx, make_scheduler, gen_sched
@@ -21,7 +21,7 @@ RULE = ("one run = one generated proper table MDP (discounted or not, initial ma
         "decision-log digest; non-trivial = >=1 decision and >=1 oracle clause")
 REAL = ["msdm.algorithms.lrtdp.LRTDP (unmodified)", "msdm.core.utils.dictutils.defaultdict2", "msdm.core.distributions sampling path", "QuickTabularMDP wrapper"]
 STUB = ["table MDP behind msdm's model interface", "random.Random stream (SimRandom)", "reference value iteration, exact policy evaluation, expected steps to absorption"]
-ASSUMPTIONS = ["eps*N clauses and the trial bound are applied only with monotone admissible heuristics (hypothesis of the Bonet-Geffner theorem)",
+ASSUMPTIONS = ["the eps*N clauses are applied with every admissible heuristic; value monotonicity and the Bonet-Geffner trial bound only with monotone ones (their hypothesis)",
                "proper MDPs with <= 6 non-absorbing states", "'reported values' = entries the result actually stores (V, Q, initial_value)"]
 
 
@@ -32,7 +32,8 @@ def preload():
 def gen_case(rng, tier, idx):
     spec = gen_mdp_spec(rng, proper=True, discounts=(0.5, 0.9, 0.95, 1.0, 1.0),
                         rewards=rng.choice((None, None, (-2.0, -1.0, -1.0, 0.0, 1.0, 0.5), (-1.0, -2.0, -1.0, -3.0), (0.0, -1.0))))
-    cfg = dict(heur=gen_heuristic(rng), eps=rng.choice((1e-2, 1e-3, 1e-5)), rao=rng.random() < 0.6, seed=rng.choice((0, 1, 9)))
+    cfg = dict(heur=gen_heuristic(rng), eps=rng.choice((1e-2, 1e-3, 1e-5)), rao=rng.random() < 0.6, seed=rng.choice((0, 1, 9)),
+               reuse=rng.randrange(1000) if rng.random() < 0.2 else None)
     plain = idx % 4 == 0
     sched = gen_sched(rng, ('P',) if plain else ('P', 'U', 'R', 'R'), budget_choices=(20, 100, 400, 2000), cap=300000)
     return dict(spec=spec, cfg=cfg, sched=sched)
@@ -44,7 +45,7 @@ def execute(case, script=None):
     ctx = RunCtx(PROP, view)
     ctx.W = game_W(view)
     ctx.declare_probes('absorbing_initial_state', 'absorbing_initial_labelled_by_entry', 'monotone_heuristic', 'non_monotone_heuristic',
-                       'nonzero_heuristic_at_absorbing', 'unproductive_trial', 'trial_events', 'timestep_events', 'undiscounted')
+                       'nonzero_heuristic_at_absorbing', 'unproductive_trial', 'trial_events', 'timestep_events', 'undiscounted', 'planner_reused')
     sched = make_scheduler(case, script, ctx)
     try:
         return _execute(lr, view, case['cfg'], ctx, sched)
@@ -71,7 +72,7 @@ def _execute(lr, view, cfg, ctx, sched):
     v0 = sum(p * Vs[s] for s, p in view.init.items())
     nonabs = [s for s in range(view.N) if s not in view.absorbing]
     trial_bound = view.N + sum(max(0.0, htab[s] - Vs[s]) for s in nonabs) / eps + 1
-    st = dict(prevV={}, solved_val={}, trials=0, productive=0, t=0, entered_abs=set())
+    st = dict(prevV={}, solved_val={}, trials=0, productive=0, t=0, entered_abs=set(), main=True)
 
     def tolv(x):
         return 1e-9 * (1 + abs(x))
@@ -111,6 +112,8 @@ def _execute(lr, view, cfg, ctx, sched):
 
     class L(lr.LRTDPEventListener):
         def end_of_lrtdp_timestep(self, lv):
+            if not st['main']:
+                return
             ctx.probe('timestep_events')
             ctx.steps += 1
             st['t'] += 1
@@ -132,6 +135,8 @@ def _execute(lr, view, cfg, ctx, sched):
                 st['entered_abs'].add(ns)
 
         def end_of_lrtdp_trial(self, lv):
+            if not st['main']:
+                return
             ctx.probe('trial_events')
             st['trials'] += 1
             Vd, solved = invariants(lv, f"end of trial {st['trials']}")
@@ -150,8 +155,20 @@ def _execute(lr, view, cfg, ctx, sched):
     proxy = RandomProxy(sched)
     with patched_random([lr], proxy):
         try:
-            r = lr.LRTDP(heuristic=lambda s: htab[sid[s]], seed=cfg['seed'], bellman_error_margin=eps, randomize_action_order=cfg['rao'],
-                         iterations=10 ** 7, event_listener_class=L).plan_on(mdp)
+            planner = lr.LRTDP(heuristic=lambda s: htab[sid[s]], seed=cfg['seed'], bellman_error_margin=eps, randomize_action_order=cfg['rao'],
+                               iterations=10 ** 7, event_listener_class=L)
+            sib = sibling_mdp_spec(view.spec, cfg['reuse']) if cfg.get('reuse') is not None else None
+            if sib is not None:
+                # fault F5: the same planner object is first used on a sibling problem (same keys, one more absorbing state)
+                sched.fire('F5_object_reuse')
+                ctx.probe('planner_reused')
+                st['main'] = False
+                sview = MDPView(sib)
+                W0, ctx.W = ctx.W, game_W(sview)
+                planner.plan_on(make_mdp(sview, ctx))
+                ctx.W = W0
+                st['main'] = True
+            r = planner.plan_on(mdp)
         except (Violation, Inconclusive):
             raise
         except Exception as e:
@@ -196,10 +213,11 @@ def _execute(lr, view, cfg, ctx, sched):
             continue
         gap = Vd.get(s, htab[s]) - Vs[s]
         ctx.check(gap >= -tolv(Vs[s]), 'upper-bound', lambda: f"V[{s}] - V*[{s}] = {gap!r} < 0 at an initial state")
-        if mono:
+        ctx.clauses += 0
+        if True:      # every admissible heuristic (the returned policy is the one verified at labelling)
             ctx.check(gap <= eps * float(Np[s]) + tolv(Vs[s]) + 1e-9, 'eps-bound-value',
                       lambda: f"V[{s}] - V*[{s}] = {gap!r} exceeds eps*N = {eps}*{float(Np[s])!r}")
-    if mono:
+    if True:
         vp0 = sum(p * float(Vp[s]) for s, p in view.init.items())
         n0 = sum(p * float(Np[s]) for s, p in view.init.items())
         ctx.check(vp0 >= v0 - eps * n0 - 1e-9 * (1 + abs(v0)), 'eps-bound-policy',
